@@ -12,25 +12,6 @@ def answer : Option Val → VRes
   | none => .absent
   | some v => .value v
 
-/-- is the node referenced by hash from its parent (encoding of 32 bytes or more)? -/
-def isHashed (H : Hash) (n : Node) : Bool :=
-  match enc H n with
-  | .str _ => false
-  | .list l => decide (32 ≤ (Rlp.encode (.list l)).length)
-
-/-- one step of verification at node level: walk through a stored node and the nodes embedded in it,
-until a value, a dead end, or a child that is referenced by hash -/
-def nstep (H : Hash) : Node → List Nib → Step
-  | .empty, _ => .absent
-  | .value v, _ => .found v
-  | .short k c, key =>
-    match splitCommon key k with
-    | (_, rest, []) => if isHashed H c then .next rest (H (encBytes H c)) else nstep H c rest
-    | _ => .absent
-  | .full _, [] => .crash
-  | .full cs, i :: rest =>
-    if isHashed H (cs i) then .next rest (H (encBytes H (cs i))) else nstep H (cs i) rest
-
 /-- the codec assumption for one stored node: decode ∘ encode yields something that steps alike -/
 def Codec (H : Hash) (n : Node) : Prop :=
   ∃ pn, decodeNode (decodeFuel (encBytes H n)) (encBytes H n) = .ok pn ∧
